@@ -1,6 +1,6 @@
 #!/bin/sh
 # usage: tools/seeded_all.sh [out.md]   -- run every seeded change (seeded/<id>/patch.diff) against the check of its
-# property (and C13 for c03-2, whose change concerns colliding keys) in a scratch worktree of /repo HEAD; one line per change.
+# property (and C13 for c03-2 and c04-5, whose changes concern colliding keys) in a scratch worktree of /repo HEAD; one line per change.
 # A change whose patch no longer applies or that was neutralised by a later repair is reported as such (see meta.json).
 OUT=${1:-/verif/seeded/RESULTS.md}
 cd /verif
@@ -10,6 +10,7 @@ for d in seeded/*/; do
   id=$(basename $d)
   pid=$(python3 -c "import json;print(json.load(open('$d/meta.json'))['property'])")
   [ "$id" = "c03-2" ] && pid=C13
+  [ "$id" = "c04-5" ] && pid=C13
   WT=/dev/shm/repo-seeded-$$
   git -C /repo worktree add --detach $WT HEAD >/dev/null 2>&1
   if git -C $WT apply $PWD/$d/patch.diff 2>/dev/null; then
